@@ -33,7 +33,7 @@ def _site(draw, idx):
     op = draw(st.sampled_from(["eq", "le", "ge", "in", "getitem", "eq", "le", "in"]))
     status = draw(st.sampled_from(["ok", "ok", "wrong", "missing"]))
     xs = draw(st.lists(st.integers(0, 50), min_size=1, max_size=4))
-    place = draw(st.sampled_from(["inline", "inline", "var", "module", "loop"]))
+    place = draw(st.sampled_from(["inline", "inline", "var", "module", "module", "loop"]))
     late = draw(st.booleans())  # in a loop: only the last iteration is wrong
     if place == "module" and status == "missing":
         place = "var"  # scope of the property: snapshots executed inside test functions
@@ -60,8 +60,10 @@ def _case(draw, tier):
             idx += 1
         tests.append(sites)
     # module-level sites may be shared with the next test
-    share = draw(st.booleans())
-    return {"tests": tests, "share": share, "flags": draw(_flags())}
+    share = draw(st.sampled_from([True, True, False]))
+    # parametrised tests: the same call sites are evaluated again by a second test item
+    param = [draw(st.sampled_from([1, 1, 2])) for _ in tests]
+    return {"tests": tests, "share": share, "param": param, "flags": draw(_flags())}
 
 
 def site_code(s):
@@ -110,7 +112,7 @@ def cmp_line(s, S, x):
 
 
 def render(case):
-    lines = ["from inline_snapshot import snapshot", "", "",
+    lines = ["import pytest", "from inline_snapshot import snapshot", "", "",
              "def mark(tag):", "    with open('executed.log', 'a') as f:", "        f.write(tag + '\\n')", ""]
     module_sites = []
     for ti, sites in enumerate(case["tests"]):
@@ -120,35 +122,40 @@ def render(case):
                 lines.append(f"S{s['id']} = snapshot({arg})")
                 module_sites.append((ti, s))
     lines.append("")
+    params = case.get("param") or [1] * len(case["tests"])
     for ti, sites in enumerate(case["tests"]):
-        lines.append(f"def test_{ti}():")
+        if params[ti] > 1:
+            lines.append(f"@pytest.mark.parametrize('r', {list(range(params[ti]))!r})")
+            lines.append(f"def test_{ti}(r):")
+        else:
+            lines.append(f"def test_{ti}(r=0):")
         use = list(sites)
         if case["share"] and ti > 0:
             use += [s for t, s in module_sites if t == ti - 1]
         for s in use:
             arg, xs = site_code(s)
-            tag = f"t{ti}.s{s['id']}"
+            tag = f"t{ti}r%d.s{s['id']}"
             if s["place"] == "module":
                 for x in xs:
-                    lines += [f"    mark({tag!r})", "    " + cmp_line(s, f"S{s['id']}", x)]
+                    lines += [f"    mark({tag!r} % r)", "    " + cmp_line(s, f"S{s['id']}", x)]
             elif s["place"] == "var":
-                lines.append(f"    mark({tag!r})")
+                lines.append(f"    mark({tag!r} % r)")
                 lines.append(f"    v{s['id']} = snapshot({arg})")
                 for x in xs:
-                    lines += [f"    mark({tag!r})", "    " + cmp_line(s, f"v{s['id']}", x)]
+                    lines += [f"    mark({tag!r} % r)", "    " + cmp_line(s, f"v{s['id']}", x)]
             elif s["place"] == "loop" and s["op"] != "getitem":
                 lines.append(f"    for x in [{', '.join(xs)}]:")
-                lines += [f"        mark({tag!r})", "        " + cmp_line(s, f"snapshot({arg})", "x")]
+                lines += [f"        mark({tag!r} % r)", "        " + cmp_line(s, f"snapshot({arg})", "x")]
             elif s["op"] == "getitem":
                 lines.append(f"    for k, x in [{', '.join('(%r, %s)' % kx for kx in xs)}]:")
-                lines += [f"        mark({tag!r})", f"        assert x == snapshot({arg})[k]"]
+                lines += [f"        mark({tag!r} % r)", f"        assert x == snapshot({arg})[k]"]
             else:
                 # one call site: a loop when there are several observations
                 if len(xs) == 1:
-                    lines += [f"    mark({tag!r})", "    " + cmp_line(s, f"snapshot({arg})", xs[0])]
+                    lines += [f"    mark({tag!r} % r)", "    " + cmp_line(s, f"snapshot({arg})", xs[0])]
                 else:
                     lines.append(f"    for x in [{', '.join(xs)}]:")
-                    lines += [f"        mark({tag!r})", "        " + cmp_line(s, f"snapshot({arg})", "x")]
+                    lines += [f"        mark({tag!r} % r)", "        " + cmp_line(s, f"snapshot({arg})", "x")]
         lines.append("")
     return "\n".join(lines) + "\n"
 
@@ -189,12 +196,18 @@ def check(case):
             status[s["id"]] = s
     any_bad = False
     nontrivial = False
+    params = case.get("param") or [1] * len(case["tests"])
+    instances = []
     for ti, sites in enumerate(case["tests"]):
-        name = f"test_a::test_{ti}"
+        if params[ti] > 1:
+            instances += [(ti, sites, rr, f"test_a::test_{ti}[{rr}]") for rr in range(params[ti])]
+        else:
+            instances.append((ti, sites, 0, f"test_a::test_{ti}"))
+    for ti, sites, rr, name in instances:
         outcome = r.outcomes.get(name)
         if outcome is None:
             raise RuntimeError(f"harness: no outcome for {name}: {r.outcomes}\n{r.stdout[-1500:]}")
-        tags = [t for t in executed if t.startswith(f"t{ti}.")]
+        tags = [t for t in executed if t.startswith(f"t{ti}r{rr}.")]
         bad_sites = [status[int(t.split(".s")[1])] for t in tags if status[int(t.split(".s")[1])]["status"] != "ok"]
         # a shared module-level site: wrongness depends on the values this test compares - the generator uses
         # the same observations for every test that shares it, so the status carries over
